@@ -6,7 +6,20 @@ From Burrow Require Import ClusterMod ClusterModProofs.
 Import ListNotations.
 Open Scope Z_scope.
 
-Theorem C11_asked_exactly_leaders : forall l en,
+(* ---- clause 1: "on each refresh cycle every partition that has a leader is asked of exactly its current leader".
+   FULL statement (for the partitions the module has seen in its last complete metadata read):
+       forall l en b t p ge ts ps, In en (trace init_state None l) ->
+         ghost_now en = Some ge -> e_topics ge = Good ts -> In t ts -> e_parts ge t = Good ps -> In p ps ->
+         e_leader (en_env en) t p = Good b -> In (b, t, p) (co_asks (en_out en)).
+   FALSE for HEAD (C11_current_leader_asked_refuted, known finding C11:leaderless-at-refresh: a partition that had no
+   leader when the metadata was last read is not asked after it gained one, and forces no re-read).  Proved instead:
+   the `_partial` iff below (asked <=> Leader succeeded in the last complete read, of the broker Leader names NOW; never
+   twice, never two brokers) and C11_current_leader_asked_iff_known, which states the exact staleness in terms of the
+   current leaders: a partition with a leader now is missing from the requests iff it had none (or did not exist) in
+   the last complete read -- which is this cycle's own read whenever this cycle's refresh completed
+   (C11_asked_exactly_leaders_refreshed).  What is missing: a bound on the age of that read (HEAD: the metadata
+   ticker; with the repair of C11_repaired_unknown_at_refresh_sets_flag: one cycle). *)
+Theorem C11_asked_exactly_leaders_partial : forall l en,
   In en (trace init_state None l) ->
   (forall b t p, In (b, t, p) (co_asks (en_out en)) <->
      exists ge ts ps, ghost_now en = Some ge /\ e_topics ge = Good ts /\ In t ts /\ e_parts ge t = Good ps
@@ -14,6 +27,22 @@ Theorem C11_asked_exactly_leaders : forall l en,
   /\ NoDup (co_asks (en_out en))
   /\ (forall b b' t p, In (b, t, p) (co_asks (en_out en)) -> In (b', t, p) (co_asks (en_out en)) -> b = b').
 Proof. exact asked_exactly_leaders_run. Qed.
+
+Theorem C11_current_leader_asked_refuted :
+  exists l en b t p ge ts ps,
+    In en (trace init_state None l)
+    /\ ghost_now en = Some ge /\ e_topics ge = Good ts /\ In t ts /\ e_parts ge t = Good ps /\ In p ps
+    /\ e_topics (en_env en) = Good ts /\ e_parts (en_env en) t = Good ps
+    /\ e_leader (en_env en) t p = Good b
+    /\ ~ In (b, t, p) (co_asks (en_out en)).
+Proof. exact current_leader_asked_refuted. Qed.
+
+Theorem C11_current_leader_asked_iff_known : forall l en b t p,
+  In en (trace init_state None l) -> e_leader (en_env en) t p = Good b ->
+  (In (b, t, p) (co_asks (en_out en)) <->
+   exists ge ts ps, ghost_now en = Some ge /\ e_topics ge = Good ts /\ In t ts /\ e_parts ge t = Good ps
+     /\ In p ps /\ has_leader ge t p = true).
+Proof. exact current_leader_asked_iff_known. Qed.
 
 Theorem C11_asked_exactly_leaders_refreshed : forall st e o ts,
   wf st -> cycle st e = Done o -> refreshed st e = Some ts ->
@@ -47,11 +76,33 @@ Theorem C11_error_sets_flag : forall st e o,
   (fetchMetadata (co_state o) = true <-> partition_error e o \/ unknown_leader e o).
 Proof. exact error_sets_flag. Qed.
 
-Theorem C11_error_forces_refresh : forall l l1 a b l2,
+(* ---- clause 4: "a per-partition error or an unknown leader causes cluster metadata to be re-read on the next cycle".
+   FULL statement (an unknown leader at EITHER call site of client.Leader: in generateOffsetRequests, :219, and during
+   the refresh itself, :179):
+       forall l l1 a b l2, trace init_state None l = l1 ++ a :: b :: l2 ->
+         partition_error (en_env a) (en_out a) \/ unknown_leader (en_env a) (en_out a)
+         \/ unknown_leader_at_refresh (en_pre a) (en_env a) ->
+         fetchMetadata (en_pre b) = true.
+   FALSE for HEAD in its third disjunct (C11_unknown_leader_at_refresh_forces_refresh_refuted; the branch at :180 only
+   logs).  Proved: the first two disjuncts (`_partial`); C11_error_sets_flag is the exact one-cycle characterisation of
+   the flag.  The one-line repair would give the third (C11_repaired_unknown_at_refresh_sets_flag); it is not applied
+   because the existing unit test ..._PartialUpdate pins the cleared flag (design_notes/C11.md). *)
+Theorem C11_error_forces_refresh_partial : forall l l1 a b l2,
   trace init_state None l = l1 ++ a :: b :: l2 ->
   partition_error (en_env a) (en_out a) \/ unknown_leader (en_env a) (en_out a) ->
   fetchMetadata (en_pre b) = true.
 Proof. exact error_forces_refresh. Qed.
+
+Theorem C11_unknown_leader_at_refresh_forces_refresh_refuted :
+  exists l l1 a b l2,
+    trace init_state None l = l1 ++ a :: b :: l2
+    /\ unknown_leader_at_refresh (en_pre a) (en_env a)
+    /\ fetchMetadata (en_pre b) = false.
+Proof. exact unknown_leader_at_refresh_forces_refresh_refuted. Qed.
+
+Theorem C11_repaired_unknown_at_refresh_sets_flag : forall st e o,
+  cycle_repaired st e = Done o -> unknown_leader_at_refresh st e -> fetchMetadata (co_state o) = true.
+Proof. exact repaired_unknown_at_refresh_sets_flag. Qed.
 
 Theorem C11_count_bounds_partition : forall l en t p off c,
   (forall x, In x l -> env_ids_ok (snd x)) ->
@@ -125,13 +176,98 @@ Proof. exact run_s_is_trace. Qed.
 Example C11_storage_in_time_prompt : forall o, storage_in_time prompt o.
 Proof. exact storage_in_time_prompt. Qed.
 
-Print Assumptions C11_asked_exactly_leaders.
+(* ---- the two assumptions baked into the type `env`, by name (audit 2026-10-02).
+   leader_stable x      : client.Leader answers the same at :179 and at :219 within one cycle;
+   answers_match_asks x : every OffsetResponse holds exactly the blocks that were asked.
+   Under both the general cycle `xcycle` (ClusterMod.v) IS `cycle`, so every theorem above is a theorem about such
+   worlds.  Without them: whom the module asks (C11_xasked_exactly: Leader at the LAST REFRESH decides membership,
+   Leader NOW names the broker), an omitted block is silent, an unasked successful block is recorded with the
+   capacity of an unknown slice as count.  The texts presuppose brokers that answer what they were asked. *)
+Theorem C11_xcycle_stable : forall st x,
+  leader_stable x -> answers_match_asks x -> xcycle st x = cycle st (x_env x).
+Proof. exact xcycle_stable. Qed.
+
+Theorem C11_xrun_plain : forall l st, xrun st (map (fun x => (fst x, plain (snd x))) l) = run st l.
+Proof. exact xrun_plain. Qed.
+
+Theorem C11_xasked_exactly : forall st x o,
+  wf st -> xcycle st x = Done o ->
+  (forall b t p, In (b, t, p) (co_asks o) <->
+     exists i, smap_find t (snap (co_state o)) = Some i /\ In p (ti_ids i) /\ x_leader_req x t p = Good b)
+  /\ NoDup (co_asks o).
+Proof. exact xasked_exactly. Qed.
+
+Theorem C11_xomitted_block_silent : forall st x o b t p,
+  wf st -> xcycle st x = Done o -> (forall b', x_extra x b' = []) ->
+  In (b, t, p) (co_asks o) -> x_omit x b t p = true ->
+  forall off c, ~ In (t, p, off, c) (co_updates o).
+Proof. exact xomitted_block_silent. Qed.
+
+Theorem C11_xunasked_block_update : forall st x o b t' p' ans t p off rest,
+  xcycle st x = Done o ->
+  In (b, t', p') (co_asks o) -> e_answer (x_env x) b = Good ans ->
+  In (t, p, (0, off :: rest)) (x_extra x b) -> ~ In (b, t, p) (co_asks o) ->
+  In (t, p, off, count_of (snap (co_state o)) t) (co_updates o).
+Proof. exact xunasked_block_update. Qed.
+
+(* ---- non-vacuity: concrete runs (definitions in ClusterModProofs.v, evaluated by vm_compute there) *)
+Example C11_ex_trace_length : length ex_trace = 7%nat.
+Proof. exact ex_trace_length. Qed.
+
+Example C11_asked_exactly_leaders_ex :
+  map (fun en => co_asks (en_out en)) (firstn 2 ex_trace)
+  = [ [(2, 2, 0); (1, 1, 0); (2, 1, 2)]; [(2, 2, 0); (1, 1, 0); (2, 1, 2)] ].
+Proof. exact asked_exactly_leaders_ex. Qed.
+
+Example C11_answer_to_update_ex :
+  map (fun en => co_updates (en_out en)) (firstn 2 ex_trace)
+  = [ [(2, 0, 20, 1); (1, 0, 100, 3); (1, 2, 300, 3)]; [] ].
+Proof. exact answer_to_update_ex. Qed.
+
+Example C11_error_forces_refresh_ex :
+  map (fun en => (fetchMetadata (en_pre en), fetchMetadata (co_state (en_out en)))) (firstn 3 ex_trace)
+  = [ (true, false); (false, true); (true, false) ].
+Proof. exact error_forces_refresh_ex. Qed.
+
+Example C11_env_ids_ok_ex : forall x, In x ex_run -> env_ids_ok (snd x).
+Proof. exact env_ids_ok_ex. Qed.
+
+(* the finding's run: p1 of topic 1 has no leader at the metadata read of cycle 0 and one from cycle 1 on *)
+Example C11_aud_run_ex :
+  map (fun en => (fetchMetadata (en_pre en), fetchMetadata (co_state (en_out en)), co_asks (en_out en)))
+      (trace init_state None aud_run)
+  = [ (true, false, [(1, 1, 0)]); (false, false, [(1, 1, 0)]); (false, false, [(1, 1, 0)]) ].
+Proof. exact aud_run_ex. Qed.
+
+Example C11_x_leader_differs_ex :
+  map (fun r => match snd r with Done o => (fetchMetadata (co_state o), co_asks o, co_updates o) | Crash => (false, [], []) end)
+      (xrun init_state [ (true, xenv_of_tables (Good [1]) (xex_rows Fail false) [] []) ])
+  = [ (true, [(1, 1, 0)], [(1, 0, 10, 2)]) ].
+Proof. exact x_leader_differs_ex. Qed.
+
+Example C11_x_unasked_block_ex :
+  map (fun r => match snd r with Done o => (fetchMetadata (co_state o), co_asks o, co_updates o) | Crash => (false, [], []) end)
+      (xrun init_state [ (true, xenv_of_tables (Good [1]) (xex_rows (Good 1) false) [] [(1, 9, 0, 0, [77])]) ])
+  = [ (false, [(1, 1, 0); (1, 1, 1)], [(1, 0, 10, 2); (1, 1, 20, 2); (9, 0, 77, 0)]) ].
+Proof. exact x_unasked_block_ex. Qed.
+
+Example C11_x_omitted_ex :
+  map (fun r => match snd r with Done o => (fetchMetadata (co_state o), co_asks o, co_updates o) | Crash => (false, [], []) end)
+      (xrun init_state [ (true, xenv_of_tables (Good [1]) (xex_rows (Good 1) true) [] []) ])
+  = [ (false, [(1, 1, 0); (1, 1, 1)], [(1, 1, 20, 2)]) ].
+Proof. exact x_omitted_ex. Qed.
+
+Print Assumptions C11_asked_exactly_leaders_partial.
+Print Assumptions C11_current_leader_asked_refuted.
+Print Assumptions C11_current_leader_asked_iff_known.
 Print Assumptions C11_asked_exactly_leaders_refreshed.
 Print Assumptions C11_leaderless_not_asked.
 Print Assumptions C11_answer_to_update.
 Print Assumptions C11_fault_no_update.
 Print Assumptions C11_error_sets_flag.
-Print Assumptions C11_error_forces_refresh.
+Print Assumptions C11_error_forces_refresh_partial.
+Print Assumptions C11_unknown_leader_at_refresh_forces_refresh_refuted.
+Print Assumptions C11_repaired_unknown_at_refresh_sets_flag.
 Print Assumptions C11_count_bounds_partition.
 Print Assumptions C11_no_crash.
 Print Assumptions C11_run_entries.
@@ -142,3 +278,8 @@ Print Assumptions C11_stalled_storage_sound.
 Print Assumptions C11_received_updates_delivered.
 Print Assumptions C11_run_s_forget.
 Print Assumptions C11_run_s_is_trace.
+Print Assumptions C11_xcycle_stable.
+Print Assumptions C11_xrun_plain.
+Print Assumptions C11_xasked_exactly.
+Print Assumptions C11_xomitted_block_silent.
+Print Assumptions C11_xunasked_block_update.
